@@ -13,7 +13,7 @@ from .. import totality
 from ..dataflow import defs
 from ..lattice import ir_family, reaching_classes
 from ..model import call_name, own_nodes, unparse
-from ..pathcond import path_info
+from ..pathcond import assigned_alternatives, path_info
 from ..paths import enumerate_paths, path_calls
 from ._pynames import norm
 
@@ -108,10 +108,9 @@ def run(pm, ctx):
               'otherwise positional', decl.loc,
               msg='signature parameter kinds are decided as %s' % table,
               key='C14-R1|%s|kinds' % decl.qualname)
-    nsv = {unparse(n.value): [(unparse(e), p) for e, p in pi.at(n)
-                              if 'is_user_defined_type' in unparse(e)]
-           for n in own_nodes(decl.node) if isinstance(n, ast.Assign) and
-           unparse(n.targets[0]) == 'ns'}
+    nsv = {unparse(leaf): [(unparse(e), p) for e, p in pi.at(leaf)
+                           if 'is_user_defined_type' in unparse(e)]
+           for leaf, _st in assigned_alternatives(decl.node, 'ns')}
     ctx.check('C14-R1', nsv == {'field.data_type.namespace':
                                 [('is_user_defined_type(field.data_type)', True)],
                                 'None': [('is_user_defined_type(field.data_type)', False)]},
